@@ -1,7 +1,160 @@
-(* C20 -- placeholder while the harness is brought up; replaced below *)
+(* C20 -- Concurrent clients of one repository behave as if they ran one after another.
+
+   Model: Model/Conc.v.  An API call of a client runs as a sequence of atomic STEPS (one registry transaction block --
+   SQLite BEGIN IMMEDIATE is a global write lock --, one run of reads outside a block, or one datastore file operation);
+   a schedule (any list of naturals: entry k picks the (k mod #live)-th unfinished client) decides who runs the next
+   step.  `run_all fixed slots g clients schedule` is the interleaved run (the lowest-numbered client runs when the
+   schedule is exhausted), `run_serial` the run in which a pick executes a WHOLE call.  fixed = true is the code as it
+   is; fixed = false the variant with the chain cycle check before the block (before fbfd646).
+   Statements only; proofs in Proofs/ConcProofs*.v. *)
 From Coq Require Import NArith List Bool.
-From V Require Import Model.Conc.
+From V Require Import Model.Conc Proofs.ConcProofs Proofs.ConcProofsB Proofs.ConcProofsC.
 Import ListNotations.
-Theorem placeholder_step_total : forall fixed slots g c, exists g' c', cstep fixed slots g c = (g', c').
-Proof. intros. destruct (cstep fixed slots g c) as [g' c']. eauto. Qed.
-Print Assumptions placeholder_step_total.
+Open Scope N_scope.
+
+(* ---- 1. calls whose decisions are re-read inside their single block: every schedule IS a serial order *)
+
+(* for ALL states, programs and schedules: if every call is a single block (put, associate, removeCollection, chain edits
+   as repaired) the interleaved run equals the serial run in the order of the schedule (the commit order): same
+   per-client outcomes, same final state *)
+Theorem closed_ops_serializable : forall fixed slots sched g cs, all_closed fixed cs = true ->
+  run_sched fixed slots g cs sched = run_serial fixed slots g cs sched.
+Proof. exact closed_ops_serializable_p. Qed.
+Print Assumptions closed_ops_serializable.
+
+Theorem put_closed : forall fixed run det v, single_block fixed (Put run det v) = true.
+Proof. exact put_closed_p. Qed.
+Print Assumptions put_closed.
+
+Theorem associate_closed : forall fixed t rs, single_block fixed (Assoc t rs) = true.
+Proof. exact assoc_closed_p. Qed.
+Print Assumptions associate_closed.
+
+Theorem remove_collection_closed : forall fixed n, single_block fixed (RmColl n) = true.
+Proof. exact rmcoll_closed_p. Qed.
+Print Assumptions remove_collection_closed.
+
+Theorem chain_edit_closed_with_fix : forall c ch,
+  single_block true (SetChain c ch) = true /\ single_block true (Prepend c ch) = true /\
+  single_block true (Extend c ch) = true /\ single_block true (Unchain c ch) = true.
+Proof. exact chain_edit_closed_with_fix_p. Qed.
+Print Assumptions chain_edit_closed_with_fix.
+
+(* a single-block call really is one step, whatever the state *)
+Theorem single_block_is_one_step : forall fixed o, single_block fixed o = true ->
+  forall slots g own s, exists g' r own', mstep fixed slots g own o s = (g', Done r own').
+Proof. exact single_block_done. Qed.
+Print Assumptions single_block_is_one_step.
+
+(* without fbfd646 a chain edit is still running after its first step (the check), so it is not closed *)
+Theorem chain_edit_not_closed_without_fix :
+  exists g s', colls g <> [] /\ mstep false [] g [] (SetChain 1 [2]) s0 = (g, Cont s').
+Proof. exact chain_edit_not_closed_without_fix_p. Qed.
+Print Assumptions chain_edit_not_closed_without_fix.
+
+(* ---- 2. chain edits are not lost / no cycle *)
+
+(* witness schedule check1, check2, write1, write2 on the variant with the check outside the block: A -> B -> A *)
+Theorem chain_cycle_race_refuted_without_fix :
+  exists sched, let '(g, cs) := run_all false [] g_chain p_chain sched in
+                cyclic g = true /\ map outs cs = [[OkU]; [OkU]].
+Proof. exact chain_cycle_race_refuted_without_fix_p. Qed.
+Print Assumptions chain_cycle_race_refuted_without_fix.
+
+(* the code as it is: under EVERY schedule one of the two opposite edits is refused and no cycle is left *)
+Theorem chain_cycle_race_fixed_all_schedules : forall sched,
+  let '(g, cs) := run_all true [] g_chain p_chain sched in
+  cyclic g = false /\ (map outs cs = [[OkU]; [Err ECycle]] \/ map outs cs = [[Err ECycle]; [OkU]]).
+Proof. exact chain_cycle_race_fixed_all_schedules_p. Qed.
+Print Assumptions chain_cycle_race_fixed_all_schedules.
+
+(* ---- 3. get-or-create and one winner *)
+
+(* Database.sync inside its block, for every state: absent -> created, True; present with the same type -> False, state
+   untouched; present with another type -> conflict, state untouched *)
+Theorem get_or_create : forall g n t,
+  match lookup n (colls g) with
+  | None => exists g', sync_coll g n t = (g', inl true) /\ lookup n (colls g') = Some t /\ dsets g' = dsets g
+  | Some t' => if ctype_eqb t t' then sync_coll g n t = (g, inl false) else sync_coll g n t = (g, inr EConflict)
+  end.
+Proof. exact sync_get_or_create_p. Qed.
+Print Assumptions get_or_create.
+
+(* for EVERY state, programs and schedule (both variants): a collection name is never registered twice *)
+Theorem one_collection_per_name : forall fixed slots sched g cs,
+  uniq_names g -> uniq_names (fst (run_all fixed slots g cs sched)).
+Proof. exact one_collection_per_name_p. Qed.
+Print Assumptions one_collection_per_name.
+
+(* three clients registering the same run, every schedule of 9 picks (the domain is finite: picks are taken modulo the
+   number of live clients <= 3, and 9 picks finish all three calls): exactly one True, the others False, one collection *)
+Theorem get_or_create_three_clients_9_picks :
+  forallb (fun sched => let '(g, cs) := run_all true [] g_empty p_reg3 sched in
+                        one_true cs && Nat.eqb (length (colls g)) 1) (all_scheds 9) = true.
+Proof. exact get_or_create_three_clients_p. Qed.
+Print Assumptions get_or_create_three_clients_9_picks.
+
+(* for EVERY state, programs and schedule: at most one dataset per (run, data ID) -- of several conflicting inserts at
+   most one wins *)
+Theorem one_winner : forall fixed slots sched g cs,
+  uniq_keys g -> uniq_keys (fst (run_all fixed slots g cs sched)).
+Proof. exact one_dataset_per_key_p. Qed.
+Print Assumptions one_winner.
+
+(* the arbitration at the step: a put succeeds only on a free key and takes it; on a taken key it is refused with a
+   conflict and changes nothing *)
+Theorem put_one_winner_step : forall fixed slots g own run det v s g' r own',
+  mstep fixed slots g own (Put run det v) s = (g', Done r own') ->
+  (r = OkU -> has_key g run det = false /\ has_key g' run det = true) /\
+  (has_key g run det = true -> lookup run (colls g) = Some CRun -> r = Err EConflict /\ g' = g).
+Proof. exact put_one_winner_step_p. Qed.
+Print Assumptions put_one_winner_step.
+
+(* ---- 4. multi-block calls: what the faithful model does NOT satisfy (each witness is replayed on the real Butler) *)
+
+(* two-phase removal is NOT serializable against a put that re-uses the data ID: emptyTrash reads the trash, the put
+   commits a new dataset whose artifact has the same path, emptyTrash deletes it: visible and unreadable *)
+Theorem two_phase_removal_serializable_refuted :
+  exists sched, let '(g, cs) := run_all true (slots_of g_r1) g_r1 p_prune_put sched in
+                map outs cs = [[OkU]; [OkU]] /\ has_key g 3 0 = true /\ all_readable g = false.
+Proof. exact visible_readable_refuted_p. Qed.
+Print Assumptions two_phase_removal_serializable_refuted.
+
+(* ... while both serial orders of these two calls leave everything visible readable *)
+Theorem two_phase_removal_serial_orders_fine :
+  forall order, In order [[0; 0]; [1; 0]]%nat ->
+  all_readable (fst (run_serial true (slots_of g_r1) g_r1 p_prune_put order)) = true.
+Proof. exact visible_readable_serial_p. Qed.
+Print Assumptions two_phase_removal_serial_orders_fine.
+
+(* registration of one name with two types: the loser gets a conflict that no serial order produces (they answer
+   False); the state is that of the serial orders *)
+Theorem register_type_race_refuted :
+  (exists sched, map outs (snd (run_all true [] g_empty p_reg2 sched)) = [[OkB true]; [Err EConflict]]) /\
+  (forall order, In order [[0; 0]; [1; 0]]%nat ->
+     ~ In (Err EConflict) (concat (map outs (snd (run_serial true [] g_empty p_reg2 order))))).
+Proof. exact register_type_race_refuted_p. Qed.
+Print Assumptions register_type_race_refuted.
+
+(* registerRun is two blocks; a removeCollection between them makes it fail half-way *)
+Theorem register_run_halfway_refuted :
+  exists sched, map outs (snd (run_all true [] g_empty p_regrm sched)) = [[Err ESqlIntegrity]; [OkU]].
+Proof. exact regrun_halfway_refuted_p. Qed.
+Print Assumptions register_run_halfway_refuted.
+
+(* removeRuns reads the datasets of the run before its block; a put in between makes the block fail, nothing is lost *)
+Theorem remove_runs_put_race_refuted :
+  exists sched, let '(g, cs) := run_all true (slots_of g_r1) g_r1 p_rr_put sched in
+                map outs cs = [[Err ESqlIntegrity]; [OkU]] /\ all_readable g = true /\ length (dsets g) = 2%nat.
+Proof. exact removerun_put_race_refuted_p. Qed.
+Print Assumptions remove_runs_put_race_refuted.
+
+(* ---- non-vacuity *)
+Example closed_programs_exist :
+  all_closed true [client_of [Put 3 0 9; Assoc 5 [ROwn]]; client_of [SetChain 1 [2]; RmColl 4]] = true.
+Proof. reflexivity. Qed.
+Example uniq_initial : uniq_keys g_r1 /\ uniq_names g_r1.
+Proof. split; vm_compute; repeat constructor; simpl; intuition discriminate. Qed.
+Example interleaving_differs_from_default :
+  snd (run_all true (slots_of g_r1) g_r1 p_prune_put [0; 0; 1]%nat) <> snd (run_all true (slots_of g_r1) g_r1 p_prune_put [1]%nat).
+Proof. vm_compute. discriminate. Qed.
